@@ -16,12 +16,10 @@ CASE_T = "case"
 THEOREMS = [
     "C17_sort_sorted", "C17_sort_permutation",
     "C17_order", "C17_order_documented",
-    "C17_mirror_partial", "C17_pages_nodup", "C17_mirror_refuted_copy_subdir", "C17_mirror_refuted_dotted",
+    "C17_mirror", "C17_pages_nodup",
     "C17_bad_page_isolated", "C17_bad_page_isolated_tree",
     "C17_pages_written", "C17_files_copied_beside",
-    "C17_copy_subdir_copied", "C17_copy_subdir_every_page", "C17_copy_subdirs_spec",
-    "C17_copy_subdir_skip_as_coded", "C17_copy_subdir_partial",
-    "C17_copy_subdir_refuted",
+    "C17_copy_subdir_copied", "C17_copy_subdir_every_page", "C17_copy_subdirs_spec", "C17_copy_subdir_skip",
 ]
 
 MD_NAMES = ["a.md", "b.md", "c.md", "B.md", "z.md", "intro.md"]
@@ -59,7 +57,7 @@ def gen_dir(rng, depth, knobs):
     for _ in range(n):
         r = rng.random()
         if r < 0.36:
-            pool = MD_NAMES if rng.random() > knobs.get("p_dotted", 0.04) else DOTTED
+            pool = MD_NAMES if rng.random() > knobs.get("p_dotted", 0.12) else DOTTED
             nm = fresh(pool)
             if nm:
                 es.append(F_(nm, titled=rng.random() > knobs.get("p_untitled", 0.2), style=rng.randrange(4)))
@@ -323,9 +321,10 @@ def exhaustive_family():
 LINK_RE = re.compile(r"""<(a|img|link|script)\b[^>]*?\b(href|src)\s*=\s*(?:"([^"]*)"|'([^']*)')""", re.I)
 
 
-def spec_pages_py(es, prefix=""):
-    """clean trees only (no copy_subdir, no dotted names, no missing entries): (src, out) of every page,
-    in documented order"""
+def spec_pages_py(es, prefix="", proj=()):
+    """trees without dotted... any names, without missing ordered entries: (src, out) of every page, in
+    documented order; a directory named by copy_subdir of its own directory's index.md (else by the project
+    list) is only copied"""
     idx = [e for e in es if e["k"] == "f" and e["n"] == "index.md"]
     if not idx or not idx[0]["titled"]:
         return []
@@ -333,13 +332,15 @@ def spec_pages_py(es, prefix=""):
     names = sorted(e["n"] for e in es)
     ordered = [x for x in dict.fromkeys(idx[0]["ord"]) if x != "index.md"]
     order = ordered + [x for x in names if x not in ordered]
+    copy = idx[0]["cp"] or list(proj)
     by = {e["n"]: e for e in es}
     for n in order:
         if n == "index.md" or n.startswith(".") or n.endswith("~") or n not in by:
             continue
         e = by[n]
         if e["k"] == "d":
-            out += spec_pages_py(e["es"], prefix + n + "/")
+            if n not in copy:
+                out += spec_pages_py(e["es"], prefix + n + "/", proj)
         elif n.endswith(".md") and len(n) > 3 and e["titled"]:
             out.append((prefix + n, prefix + n[:-3] + ".html"))
     return out
@@ -485,7 +486,7 @@ def preorder(n):
         yield from preorder(c)
 
 
-def e2e_problems(es, bodies, pages, res, w, stats=None):
+def e2e_problems(es, bodies, pages, res, w, stats=None, proj=()):
     """the statement, tested directly on the output of a full run over a clean tree"""
     stats = stats if stats is not None else {"links_checked": 0, "max_depth": 0}
     doc = w.root / "doc"
@@ -522,7 +523,7 @@ def e2e_problems(es, bodies, pages, res, w, stats=None):
         d = posixpath.dirname(src)
         here = dir_entries(es, d)
         me = next(x for x in here if x["k"] == "f" and x["n"] == posixpath.basename(src))
-        for item in me["cp"]:
+        for item in (me["cp"] or list(proj)):
             tgt = next((x for x in here if x["k"] == "d" and x["n"] == item), None)
             if tgt is None or "/" in item:
                 continue
@@ -551,33 +552,36 @@ def e2e_problems(es, bodies, pages, res, w, stats=None):
 
 def end_to_end(chk, rng, nproj):
     cases, infos = [], []
-    stats = {"runs": 0, "pages": 0, "links_checked": 0, "max_depth": 0}
+    stats = {"runs": 0, "pages": 0, "links_checked": 0, "max_depth": 0, "with_project_copy_subdir": 0}
     for k in range(nproj):
         es = None
+        proj = [rng.choice(["media", "images"])] if k % 2 else []
         for _ in range(50):
-            es = gen_dir(rng, 3, dict(clean_knobs(), nmax=4, p_index=0.95, hidden=(k % 2 == 0)))
-            if len(spec_pages_py(es)) >= 3:
+            es = gen_dir(rng, 3, dict(clean_knobs(), nmax=4, p_index=0.95, hidden=(k % 2 == 0), p_dotted=0.15,
+                                      p_copy=0.2))
+            if len(spec_pages_py(es, proj=proj)) >= 3:
                 break
         add_asset_copies(rng, es)
-        pages = spec_pages_py(es)
+        pages = spec_pages_py(es, proj=proj)
         bodies = make_bodies(rng, pages)
-        res, fl, log, err, w = full_run(es, bodies)
+        res, fl, log, err, w = full_run(es, bodies, {"copy_subdir": proj[0]} if proj else None)
         try:
             stats["runs"] += 1
             stats["pages"] += len(pages)
+            stats["with_project_copy_subdir"] += bool(proj)
             chk.count(("e2e", tuple(sorted(r for r, _ in files_of(es)))), nontrivial=len(pages) > 1,
                       sample={"e2e_files": sorted(r for r, _ in files_of(es)), "pages": [o for _, o in pages]})
             if err:
                 chk.violation("failing-input", {"what": "FORD failed on a valid page directory", "error": err,
-                                                "log": log[-1500:], "tree": es, "bodies": bodies}, True)
+                                                "log": log[-1500:], "tree": es, "bodies": bodies, "proj": proj}, True)
                 continue
-            probs = e2e_problems(es, bodies, pages, res, w, stats)
+            probs = e2e_problems(es, bodies, pages, res, w, stats, proj)
             if probs:
                 chk.violation("failing-input", {"what": "static pages of a full FORD run", "problems": probs[:10],
-                                                "tree": es, "bodies": bodies}, True)
+                                                "tree": es, "bodies": bodies, "proj": proj}, True)
             if ascii_ok(es):
-                cases.append(case_term([], es, res, fl))
-                infos.append((es, res, fl))
+                cases.append(case_term(proj, es, res, fl))
+                infos.append((proj, es, res, fl))
         finally:
             w.__exit__()
     chk.extra["end_to_end"] = stats
@@ -591,17 +595,25 @@ W_GP = [F_("index.md", True, cp=["images"]),
 W_DOT = [F_("index.md"), F_("v1.2.md"), F_("v1.md")]
 
 
-def replay_known(chk):
+def regressions(chk):
+    """the witnesses of the three repaired defects: a defect that returns is a failing input"""
     res, fl, _ = impl_direct(W_GP, [])
-    lost = isinstance(res, dict) and "sub/images/index.html" not in [n["path"] for n in preorder(res)]
-    chk.known("copy-subdir-grandparent", lost)
+    paths = [n["path"] for n in preorder(res)] if isinstance(res, dict) else res
+    if not isinstance(res, dict) or "sub/images/p.html" not in paths:
+        chk.violation("failing-input", {"what": "regression: a sub-directory is skipped because the copy_subdir list "
+                                                "one level further up names it", "tree": W_GP, "pages": paths}, True)
     res, fl, _ = impl_direct(W_DOT, [])
-    paths = [n["path"] for n in preorder(res)] if isinstance(res, dict) else []
-    chk.known("dotted-page-name", paths.count("v1.html") == 2)
+    paths = [n["path"] for n in preorder(res)] if isinstance(res, dict) else res
+    if not isinstance(res, dict) or sorted(paths) != ["index.html", "v1.2.html", "v1.html"]:
+        chk.violation("failing-input", {"what": "regression: v1.2.md is not written to v1.2.html", "tree": W_DOT,
+                                        "pages": paths}, True)
     es = [F_("index.md"), D_("sub", [F_("index.md"), D_("media", [F_("m.txt")])])]
     res, fl, log, err, w = full_run(es, {}, {"copy_subdir": "media"})
     w.__exit__()
-    chk.known("project-copy-subdir-absolute", not err and "sub/media/m.txt" not in [p for p, _, _ in fl])
+    if err or "sub/media/m.txt" not in [p for p, _, _ in fl]:
+        chk.violation("failing-input", {"what": "regression: the project-level copy_subdir option copies nothing in "
+                                                "a full run", "tree": es, "proj": ["media"], "error": err,
+                                        "files": [p for p, _, _ in fl]}, True)
 
 
 # ----------------------------------------------------------------------------- the check
@@ -634,30 +646,15 @@ def evaluate(chk, cases, infos, what):
     if res is None:
         return
     chk.traces += len(cases)
-    regions = chk.extra.setdefault("region_counts", {"gp_lost": 0, "dotted": 0})
     for idx, code in sorted(res.items()):
         proj, es, ires, fl = infos[idx]
-        region = code >> 2
-        if region & 1:
-            regions["gp_lost"] += 1
-        if region & 2:
-            regions["dotted"] += 1
         payload = {"what": what, "proj": proj, "tree": es, "impl_tree": ires, "impl_files": fl, "code": code,
-                   "meaning": "bit0 model!=impl, bit1 impl violates the Spec, bits>=2 region (1 copy_subdir "
-                              "grandparent, 2 dotted page name)"}
-        if code & 1:
-            chk.disagreements += 1
-            chk.violation("failing-input" if (code & 2 and not region) else "broken-correspondence", payload,
-                          bool(code & 2 and not region))
-        elif code & 2:
-            chk.disagreements += 1
-            ok = True
-            if region & 1:
-                ok = chk.known("copy-subdir-grandparent", True) and ok
-            if region & 2:
-                ok = chk.known("dotted-page-name", True) and ok
-            if not region or not ok:
-                chk.violation("failing-input", payload, True)
+                   "meaning": "bit0 model!=impl, bit1 impl violates the Spec"}
+        chk.disagreements += 1
+        if code & 2:
+            chk.violation("failing-input", payload, True)
+        elif code & 1:
+            chk.violation("broken-correspondence", payload, False)
 
 
 def saved_corpus():
@@ -715,8 +712,8 @@ def run(chk):
     chk.extra["generator_distribution"] = dist
     evaluate(chk, cases, infos, "get_page_tree + PagetreePage.writeout on a generated page directory")
     e2e_cases, e2e_infos = end_to_end(chk, rng, 22 if quick else 200)
-    evaluate(chk, e2e_cases, [([], es, r, fl) for es, r, fl in e2e_infos], "page tree and page/ files of a full FORD run")
-    replay_known(chk)
+    evaluate(chk, e2e_cases, e2e_infos, "page tree and page/ files of a full FORD run")
+    regressions(chk)
     if not quick:
         chk.coqchk(["Ford.Props.C17"])
 
@@ -735,9 +732,11 @@ def _replay(chk, rep):
         return 1
     es, proj = rep["tree"], rep.get("proj", [])
     if "bodies" in rep:
-        res, fl, log, err, w = full_run(es, rep["bodies"])
+        proj = rep.get("proj") or []
+        res, fl, log, err, w = full_run(es, rep["bodies"], {"copy_subdir": proj[0]} if proj else None)
         try:
-            probs = [f"FORD failed: {err}"] if err else e2e_problems(es, rep["bodies"], spec_pages_py(es), res, w)
+            probs = [f"FORD failed: {err}"] if err else e2e_problems(es, rep["bodies"], spec_pages_py(es, proj=proj),
+                                                                      res, w, None, proj)
         finally:
             w.__exit__()
         print("full run:", err, "pages:", [n["path"] for n in preorder(res)] if isinstance(res, dict) else res)
@@ -768,5 +767,5 @@ def finish(chk):
         assumptions=["python-markdown / Jinja2 / pathlib are not modelled; the alias, relative-link and navigation "
                      "half of the property is tested end-to-end only",
                      "an ordered_subpage entry naming nothing may stop the run with an error (accepted by the Spec)",
-                     "a directory named by copy_subdir of its own directory's index.md that has an index.md itself "
-                     "may be a sub-tree or not (both readings accepted)"])
+                     "a directory named by copy_subdir of its own directory's index.md (else by the project list) "
+                     "is only copied, also when it has an index.md of its own"])
